@@ -517,6 +517,16 @@ pub fn scratch_dir() -> std::path::PathBuf {
     d
 }
 
+/// FNV-1a, used to pin the rendering of a saved case (stable across Rust versions, trivial to recompute)
+pub fn fnv1a(s: &str) -> u64 {
+    let mut h: u64 = 0xcbf29ce484222325;
+    for b in s.as_bytes() {
+        h ^= *b as u64;
+        h = h.wrapping_mul(0x100000001b3);
+    }
+    h
+}
+
 pub fn verif_root() -> std::path::PathBuf {
     std::env::var("VERIF_ROOT").map(Into::into).unwrap_or_else(|_| "/verif".into())
 }
@@ -540,6 +550,7 @@ fn write_replay(prop: &Property, f: &Failure, no_excl: bool) -> String {
         "sig": f.sig,
         "detail": f.detail,
         "case": f.desc,
+        "case_fnv1a": format!("{:016x}", fnv1a(&f.desc)),
     });
     let _ = std::fs::write(&path, serde_json::to_string_pretty(&j).unwrap());
     path.to_string_lossy().into_owned()
@@ -552,7 +563,7 @@ pub struct ReplayFile {
     pub no_exclusions: bool,
     pub sig: String,
     pub expect: String,
-    /// the case as rendered when the file was written; replay refuses a file that no longer decodes to it
+    /// FNV-1a of the case as rendered when the file was written (absent in hand-built files); corpus replay refuses a file that no longer decodes to it
     pub case: String,
 }
 
@@ -573,7 +584,7 @@ pub fn load_replay(path: &std::path::Path) -> Result<ReplayFile, String> {
         no_exclusions: j["no_exclusions"].as_bool().unwrap_or(false),
         sig: j["sig"].as_str().unwrap_or("").to_string(),
         expect: j["expect"].as_str().unwrap_or("pass").to_string(),
-        case: j["case"].as_str().unwrap_or("").to_string(),
+        case: j["case_fnv1a"].as_str().unwrap_or("").to_string(),
     })
 }
 
@@ -645,7 +656,7 @@ pub fn run_property(prop: &Property, thorough: bool, seed: u64, rep: &mut Report
         };
         corpus_n += 1;
         let (v, d) = replay_case(prop, &rf, thorough);
-        if !rf.case.is_empty() && !d.is_empty() && d != rf.case {
+        if !rf.case.is_empty() && !d.is_empty() && format!("{:016x}", fnv1a(&d)) != rf.case {
             rep.line(&format!("harness: corpus file {} no longer decodes to its recorded case (generator changed) — regenerate it", f.display()));
             return 2;
         }
